@@ -202,7 +202,7 @@ pub fn run(args: &Args) {
             }
         }
     }
-    let n = args.tier.pick(4000u32, 150_000u32);
+    let n = args.tier.pick(20_000u32, 600_000u32);
     let evc = RefCell::new(&mut ev);
     let res = search(args.seed, n, &tape_strategy(120), |tape| {
         let seq = gen_sequence(tape);
